@@ -123,4 +123,39 @@ example : patFindOK (cmT C02.exT) C02.exPs [97, 98] (some (1, 2)) = false := by 
 example : patFindOK (cmT C02.exT) C02.exPs [97, 98] (some (1, 1)) = false := by decide
 example : exM.dfa.prio = C02.exPs.map (·.1) := by decide
 
+/-! ## End to end on the model of the whole crate (track A)
+
+With the compiler model proved correct for every pattern list (`C02.compiler_model_correct`) the
+hypothesis `LangEquiv` of the theorems above is discharged once and for all: compiling any list of
+patterns (distinct token types, no lookaheads) and running the finder / the iterator model on the
+result yields the longest match of the first listed pattern — for every pattern list, every class
+function and every input. -/
+
+/-- the patterns of a mode as reference regular expressions -/
+def patternsOf (ps : List (Nat × CAst)) : List (Nat × Re) := ps.map fun q => (q.1, q.2.toRe)
+
+theorem compiled_langEquiv (ps : List (Nat × CAst)) (cm : Nat → Nat → Bool) :
+    LangEquiv (compileMode ps) cm cm (patternsOf ps) := by
+  intro u hu t
+  rw [compileMode_correct]
+  simp only [patternsOf, List.mem_map]
+  constructor
+  · rintro ⟨_, q, hq, rfl, hm⟩; exact ⟨q.2.toRe, ⟨q, hq, rfl⟩, hm⟩
+  · rintro ⟨r, ⟨q, hq, he⟩, hm⟩
+    cases he
+    exact ⟨hu, q, hq, rfl, hm⟩
+
+theorem compiled_prio (ps : List (Nat × CAst)) : (compileMode ps).prio = (patternsOf ps).map (·.1) := by
+  simp [compileMode, minimize, createFromPartition, compilePre, buildDfa, mkDfa, patternsOf, List.map_map]
+
+/-- **find_from on a compiled mode, for every pattern list and every input** -/
+theorem end_to_end_find (ps : List (Nat × CAst)) (hn : (ps.map (·.1)).Nodup) (cm : Nat → Nat → Bool)
+    (w : List Nat) :
+    patFindOK cm (patternsOf ps) w (findFrom ⟨compileMode ps, []⟩ cm 0 w) = true := by
+  apply findFrom_patFindOK ⟨compileMode ps, []⟩ cm cm (patternsOf ps) rfl (compiled_prio ps)
+  · have : (patternsOf ps).map (·.1) = ps.map (·.1) := by
+      simp only [patternsOf, List.map_map]; rfl
+    rw [this]; exact hn
+  · exact compiled_langEquiv ps cm
+
 end Scnr.C01
